@@ -20,8 +20,8 @@ def main(sid):
     pinned = os.environ.get("PINNED", "e4a1462")
     sh("git checkout -q --detach %s && git checkout -- . && git clean -fdq" % pinned)
     head = "".join(open(src + "/demo_test.go").readlines()[:4])
-    m = re.search(r"(?:[Pp]lace in(?: package directory|:)?\s+)([A-Za-z0-9_./-]+?)/?[\s;(]", head)
-    r = re.search(r"-run '([^']+)'", head)
+    m = re.search(r"\s\./([A-Za-z0-9_/.-]+?)/?(?:\s|$)", head)
+    r = re.search(r"-run\s+'?([^'\s]+)'?", head)
     if not m or not r:
         print("cannot parse demo header", head); return 2
     d, run = m.group(1).rstrip("/"), r.group(1)
